@@ -11,10 +11,21 @@ package tls
 
 //@ spec isRC4(x) = x == TLS_ECDHE_ECDSA_WITH_RC4_128_SHA || x == TLS_ECDHE_RSA_WITH_RC4_128_SHA || x == TLS_RSA_WITH_RC4_128_SHA
 
+// ciphClass is an arbitrary (uninterpreted) classification of suite ids; a clause `classSorted(in) ==>
+// classSorted(out)` therefore says that a list ordered by ANY classification stays ordered, i.e. that the
+// relative order of the elements is kept (this is how "TLS 1.3 first, then TLS 1.2-only, then older" is
+// carried through a deletion).
+//@ uf ciphClass(Int) Int
+//@ uf ciphProp(Int) Bool
+//@ spec classSorted(s, n) = forall a in 0..n: forall b in a+1..n: ciphClass(s[a]) <= ciphClass(s[b])
+
 // removeRC4Ciphers deletes in place.  The result is exactly the subsequence of the input without the
 // three RC4 ids: for EVERY counting function rc4cnt with rc4cnt(0) == 0 and rc4cnt(k+1) == rc4cnt(k) +
-// (0 if s[k] is RC4 else 1) (rc4Walk: rc4cnt(k) = number of kept elements among the first k), the
-// result has rc4cnt(n) elements and the kept element k of the input is element rc4cnt(k) of the result.
+// (0 if s[k] is RC4 else 1) (rc4Walk: rc4cnt(k) = number of survivors among the first k elements), the
+// result has rc4cnt(n) elements (sub_len) and input element k, if it is not RC4, is element rc4cnt(k) of
+// the result (sub_elems).  norc4 is the clause of C09 ("TLS 1.3 specs carry no RC4").
+// Not included: classSorted(in) ==> classSorted(out) (true, but together with the rc4Walk invariants no
+// solver proves the loop step within 30 s; removeRandomCiphers has that clause).
 //@ uf rc4cnt(Int) Int
 //@ spec rc4Walk(s, n) = rc4cnt(0) == 0 && forall k in 0..n: rc4cnt(k+1) == rc4cnt(k) + ite(isRC4(s[k]), 0, 1)
 //@ func removeRC4Ciphers
@@ -24,14 +35,203 @@ package tls
 //@   modifies s[0..len(s)]
 //@   ensures header: arr(ret) == arr(s) && off(ret) == off(s) && len(ret) <= n
 //@   ensures norc4: forall j in 0..len(ret): !isRC4(ret[j])
-//@   ensures member: forall j in 0..len(ret): exists k in j..n: ret[j] == old(s[k])
 //@   ensures sub_len: old(rc4Walk(s, n)) ==> len(ret) == rc4cnt(n)
 //@   ensures sub_elems: old(rc4Walk(s, n)) ==> forall k in 0..n: !isRC4(old(s[k])) ==> ret[rc4cnt(k)] == old(s[k])
 //@   loop 0 invariant arr(s) == arr(s0) && off(s) == off(s0) && cap(s) == cap(s0) && len(s) == sliceLen
 //@   loop 0 invariant 0 <= i && i <= sliceLen && sliceLen <= n
-//@   loop 0 invariant forall j in i..sliceLen: s[j] == old(s0[j + n - sliceLen])
+//@   loop 0 invariant forall m in i+n-sliceLen..n: old(s0[m]) == s[m - (n - sliceLen)]
 //@   loop 0 invariant forall j in 0..i: !isRC4(s[j])
 //@   loop 0 invariant old(rc4Walk(s0, n)) ==> rc4cnt(i + n - sliceLen) == i
 //@   loop 0 invariant old(rc4Walk(s0, n)) ==> forall k in 0..i+n-sliceLen: !isRC4(old(s0[k])) ==> 0 <= rc4cnt(k) && rc4cnt(k) < i
-//@   loop 0 invariant old(rc4Walk(s0, n)) ==> forall j in 0..i: forall k in 0..i+n-sliceLen: !isRC4(old(s0[k])) && rc4cnt(k) == j ==> s[j] == old(s0[k])
-//@   loop 0 invariant forall j in 0..i: exists k in j..i+n-sliceLen: s[j] == old(s0[k])
+//@   loop 0 invariant old(rc4Walk(s0, n)) ==> forall k in 0..i+n-sliceLen: !isRC4(old(s0[k])) ==> s[rc4cnt(k)] == old(s0[k])
+
+// removeRandomCiphers deletes in place, each element but the first with some probability.  The first
+// suite is never removed (first), nothing new appears (kept: whatever holds for all input elements holds for
+// all output elements, ciphProp being an arbitrary uninterpreted predicate; the instance C09 needs is "a
+// list without RC4 stays without RC4"), and the relative order is kept (sorted, see ciphClass above).
+// Every coin is an unconstrained boolean here: the verified contract of (*prng).FlipWeightedCoin
+// (verif_contracts_leaf.go) is deliberately not applied (opaque + assume-pure), because its clause about
+// weight <= 0.0 drags the float64 product/quotient maxRemovalProbability*float64(i)/floatLen into every
+// obligation of this function (bit-blasted fp.mul/fp.div: z3 times out on all of them, even the automatic
+// frame obligation).  Consequence: the precondition r.randomStream != nil of the coin is not checked at
+// the call (it is this function's own precondition), and ghost(rdpos, ..) is treated as unchanged.
+//@ func removeRandomCiphers
+//@   property C09
+//@   let n = len(s)
+//@   let s0 = s
+//@   requires r != nil && r.randomStream != nil
+//@   opaque tls.(*prng).FlipWeightedCoin
+//@   assume-pure FlipWeightedCoin
+//@   modifies s[0..len(s)], ghost(rdpos, r.randomStream)
+//@   ensures header: arr(ret) == arr(s) && off(ret) == off(s) && len(ret) <= n
+//@   ensures first: n >= 1 ==> len(ret) >= 1 && ret[0] == old(s[0])
+//@   ensures kept: old(forall k in 0..n: ciphProp(s[k])) ==> forall j in 0..len(ret): ciphProp(ret[j])
+//@   ensures sorted: old(classSorted(s, n)) ==> classSorted(ret, len(ret))
+//@   loop 0 invariant arr(s) == arr(s0) && off(s) == off(s0) && cap(s) == cap(s0) && len(s) == sliceLen
+//@   loop 0 invariant 1 <= i && i <= sliceLen && sliceLen <= n
+//@   loop 0 invariant s[0] == old(s0[0])
+//@   loop 0 invariant old(forall k in 0..n: ciphProp(s0[k])) ==> forall j in 0..sliceLen: ciphProp(s[j])
+//@   loop 0 invariant old(classSorted(s0, n)) ==> classSorted(s, sliceLen)
+
+// ---------------------------------------------------------------------------------------------
+// C09: the order of the TLS <= 1.2 suites: sort.Interface over (isObsolete, randomTag, suite).
+
+//@ spec scLess(c, i, j) = (!c[i].isObsolete && c[j].isObsolete) || (c[i].isObsolete == c[j].isObsolete && c[i].randomTag < c[j].randomTag)
+
+//@ func sortableCiphers.Len
+//@   property C09
+//@   pure
+//@   ensures len: ret == len(ciphers)
+
+// Less: suites with the suiteTLS12 flag come before the others (isObsolete), ties by the random key.
+//@ func sortableCiphers.Less
+//@   property C09
+//@   requires 0 <= i && i < len(ciphers) && 0 <= j && j < len(ciphers)
+//@   pure
+//@   ensures less: ret <==> scLess(ciphers, i, j)
+//@   ensures classfirst: !ciphers[i].isObsolete && ciphers[j].isObsolete ==> ret
+//@   ensures classlast: ciphers[i].isObsolete && !ciphers[j].isObsolete ==> !ret
+//@   ensures irreflexive: i == j ==> !ret
+
+//@ func sortableCiphers.Swap
+//@   property C09
+//@   requires 0 <= i && i < len(ciphers) && 0 <= j && j < len(ciphers)
+//@   note no modifies clause: the frame of an element of a slice of structs cannot be written (`modifies ciphers[i]` is a region over struct elements, which havocTarget/frameConds do not support; `modifies ciphers[i].suite` is rejected: base is not a pointer); `others` states the frame inside the slice instead
+//@   ensures swapped_i: ciphers[i].isObsolete == old(ciphers[j].isObsolete) && ciphers[i].randomTag == old(ciphers[j].randomTag) && ciphers[i].suite == old(ciphers[j].suite)
+//@   ensures others: forall k in 0..len(ciphers): k != i && k != j ==> ciphers[k].isObsolete == old(ciphers[k].isObsolete) && ciphers[k].randomTag == old(ciphers[k].randomTag) && ciphers[k].suite == old(ciphers[k].suite)
+//@   ensures swapped_j: ciphers[j].isObsolete == old(ciphers[i].isObsolete) && ciphers[j].randomTag == old(ciphers[i].randomTag) && ciphers[j].suite == old(ciphers[i].suite)
+
+//@ func sortableCiphers.GetCiphers
+//@   property C09
+//@   modifies nothing
+//@   ensures len: len(ret) == len(ciphers) && fresh(ret)
+//@   ensures ids: forall k in 0..len(ciphers): ret[k] == ciphers[k].suite
+//@   loop 0 invariant -1 <= $rangeindex && $rangeindex < len(ciphers)
+//@   loop 0 invariant len(cipherIDs) == len(ciphers) && fresh(cipherIDs)
+//@   loop 0 invariant forall k in 0..$k: cipherIDs[k] == ciphers[k].suite
+
+// ---------------------------------------------------------------------------------------------
+// C09: generateRandomizedSpec.
+
+// derive a PRNG from a seed and a salt (HKDF-SHA3 then newPRNGWithSeed, verif_contracts_roller.go)
+//@ func newSaltedPRNGSeed
+//@   property C09
+//@   requires seed != nil
+//@   modifies nothing
+//@   ensures ok: ret1 == nil ==> ret0 != nil && fresh(ret0)
+//@   ensures err: ret1 != nil ==> ret0 == nil
+
+//@ func newPRNGWithSaltedSeed
+//@   property C09
+//@   requires seed != nil
+//@   modifies nothing
+//@   ensures ok: ret1 == nil ==> ret0 != nil && fresh(ret0) && ret0.rand != nil && ret0.randomStream != nil
+//@   ensures err: ret1 != nil ==> ret0 == nil
+
+// generateRandomizedSpec itself (u_parrots.go:2949) has NO contract: the generator rejects it,
+//   UNSUPPORTED tls.generateRandomizedSpec: u_parrots.go:3117: append of a non-constant number of struct elements
+// (`ks.KeyShares = append([]KeyShare{{Group: X25519MLKEM768}}, ks.KeyShares...)`: appendStructsImpl only models
+// a source of constant length 0..9; smallest reproducer: func f(a []KeyShare) []KeyShare { return
+// append([]KeyShare{{Group: 1}}, a...) }).  Independently of that, four calls havoc the whole heap in the
+// middle of the function: shuffledCiphers (no frame, see below) and the three r.rand.Shuffle(n, swap) calls
+// (math/rand.(*Rand).Shuffle has no contract: what it modifies is whatever its function-valued argument
+// modifies, which a contract cannot say).  The clauses that were prepared (as anchors in front of the last
+// Shuffle, on x = p.Extensions, n = len(x)):
+//   alps_needs_alpn:  (exists a: istype(x[a], *ApplicationSettingsExtension)) ==> exists b: istype(x[b], *ALPNExtension)
+//   tls13_padding:    p.TLSVersMax == VersionTLS13 ==> exists a: istype(x[a], *UtlsPaddingExtension)
+//   tls13_versions:   p.TLSVersMax == VersionTLS13 ==> exists a: istype(x[a], *SupportedVersionsExtension) &&
+//                     versions of x[a] == [TLSVersMax .. TLSVersMin] (makeSupportedVersions.ordered, verif_contracts_vers.go)
+//   tls13_pss (in front of the second Shuffle): p.TLSVersMax == VersionTLS13 ==> PSSWithSHA256 among sigAndHashAlgos
+//   tls13_norc4:      removeRC4Ciphers.norc4 and removeRandomCiphers.kept above
+//   DEFECT_C09_keyshare_subset: forall a, b: isKS(x[a]) && isSC(x[b]) ==> forall k: ksOf(x[a])[k].Group is among scOf(x[b])
+//   DEFECT_C09_pq_needs_keyshare: forall b, c: isSC(x[b]) && scOf(x[b])[c] == X25519MLKEM768 ==> some key share has that group
+// The two DEFECT clauses are violated by the code (confirmed on the real code, see the report):
+// supported_groups gets X25519MLKEM768 from the coin CurveIDs_Append_X25519 (first flip), the key shares get it
+// from the coin KeyShare_Append_RandomGroups (second flip); the two coins are independent.
+
+// ---------------------------------------------------------------------------------------------
+// The three swap closures of generateRandomizedSpec (arguments of (*rand.Rand).Shuffle): each swaps
+// two elements of the captured slice and touches nothing else.
+
+//@ func generateRandomizedSpec$1
+//@   property C09
+//@   requires cell: tls13ciphers != nil
+//@   requires 0 <= i && i < len(*tls13ciphers) && 0 <= j && j < len(*tls13ciphers)
+//@   modifies (*tls13ciphers)[i], (*tls13ciphers)[j]
+//@   ensures swap: (*tls13ciphers)[i] == old((*tls13ciphers)[j]) && (*tls13ciphers)[j] == old((*tls13ciphers)[i])
+//@   ensures header: *tls13ciphers == old(*tls13ciphers)
+
+//@ func generateRandomizedSpec$2
+//@   property C09
+//@   requires cell: sigAndHashAlgos != nil
+//@   requires 0 <= i && i < len(*sigAndHashAlgos) && 0 <= j && j < len(*sigAndHashAlgos)
+//@   modifies (*sigAndHashAlgos)[i], (*sigAndHashAlgos)[j]
+//@   ensures swap: (*sigAndHashAlgos)[i] == old((*sigAndHashAlgos)[j]) && (*sigAndHashAlgos)[j] == old((*sigAndHashAlgos)[i])
+//@   ensures header: *sigAndHashAlgos == old(*sigAndHashAlgos)
+
+//@ func generateRandomizedSpec$3
+//@   property C09
+//@   requires cell: p != nil
+//@   requires 0 <= i && i < len(p.Extensions) && 0 <= j && j < len(p.Extensions)
+//@   modifies p.Extensions[i], p.Extensions[j]
+//@   ensures swap: p.Extensions[i] == old(p.Extensions[j]) && p.Extensions[j] == old(p.Extensions[i])
+//@   ensures header: p.Extensions == old(p.Extensions)
+
+// ---------------------------------------------------------------------------------------------
+// C03 (shuffle part): ShuffleChromeTLSExtensions.
+
+//@ spec fixedExt(e) = istype(e, *UtlsGREASEExtension) || istype(e, *UtlsPaddingExtension) || implements(e, PreSharedKeyExtension)
+
+// skipShuf: true exactly for the position-invariant extensions.
+//@ func ShuffleChromeTLSExtensions$1
+//@   property C03
+//@   requires 0 <= idx && idx < len(exts)
+//@   pure
+//@   ensures grease: istype(exts[idx], *UtlsGREASEExtension) ==> ret
+//@   ensures padding: istype(exts[idx], *UtlsPaddingExtension) ==> ret
+//@   ensures psk: istype(exts[idx], *UtlsPreSharedKeyExtension) || istype(exts[idx], *FakePreSharedKeyExtension) ==> ret
+//@   ensures iff: ret <==> fixedExt(exts[idx])
+
+// The two swap closures (math/rand.Shuffle fallback and (*rand.Rand).Shuffle).  They call skipShuf through
+// the captured function variable; the verifier cannot resolve a function value loaded from a cell to its
+// target (ShuffleChromeTLSExtensions$1), so these calls (SSA values t0 and t13) are assumed heap-neutral
+// with an unconstrained result (assume-pure).  What is proved: a call either leaves the list as it is or
+// exchanges elements i and j; nothing else is written.  What cannot be stated: that the list is left
+// alone exactly when one of the two elements is GREASE / padding / pre_shared_key (fixedExt).
+//@ func ShuffleChromeTLSExtensions$2
+//@   property C03
+//@   requires cell: exts != nil && skipShuf != nil
+//@   requires 0 <= i && i < len(*exts) && 0 <= j && j < len(*exts)
+//@   assume-pure t0 t13
+//@   modifies (*exts)[i], (*exts)[j]
+//@   ensures header: *exts == old(*exts)
+//@   ensures swap_or_keep: ((*exts)[i] == old((*exts)[i]) && (*exts)[j] == old((*exts)[j])) || ((*exts)[i] == old((*exts)[j]) && (*exts)[j] == old((*exts)[i]))
+
+//@ func ShuffleChromeTLSExtensions$3
+//@   property C03
+//@   requires cell: exts != nil && skipShuf != nil
+//@   requires 0 <= i && i < len(*exts) && 0 <= j && j < len(*exts)
+//@   assume-pure t0 t13
+//@   modifies (*exts)[i], (*exts)[j]
+//@   ensures header: *exts == old(*exts)
+//@   ensures swap_or_keep: ((*exts)[i] == old((*exts)[i]) && (*exts)[j] == old((*exts)[j])) || ((*exts)[i] == old((*exts)[j]) && (*exts)[j] == old((*exts)[i]))
+
+// ---------------------------------------------------------------------------------------------
+// C09: shuffledCiphers: one id per entry of the cipherSuites table, never an error.
+// NOT proved (see the report): that the result is a permutation of the table's ids with the suiteTLS12
+// suites first.  sort.Sort rearranges a slice of structs: (1) its frame cannot be written (no modifies
+// target for elements of a slice of structs), so the call havocs the heap and this function cannot have
+// a modifies clause either; (2) a trusted contract "ordered by Less / same elements" relative to old(...)
+// was tried: its clauses reach the slice through the boxed header of the interface argument, the element
+// terms then contain ix(off, j) with a non-literal offset, and no solver connects them with the elp(arr, j)
+// terms of GetCiphers' contract (300 s, z3/z3-new timeout, cvc5 unknown).
+//@ spec tableOK() = forall k in 0..len(cipherSuites): cipherSuites[k] != nil
+//@ func shuffledCiphers
+//@   property C09
+//@   let n = len(cipherSuites)
+//@   requires r != nil && r.rand != nil
+//@   requires table: tableOK()
+//@   ensures noerr: ret1 == nil
+//@   ensures len: len(ret0) == n && fresh(ret0)
+//@   loop 0 invariant -1 <= $rangeindex && $rangeindex < n
+//@   loop 0 invariant len(ciphers) == n && len(perm) == n
